@@ -8,6 +8,7 @@ import GoNeat.Proofs.RegistrySteps
 import GoNeat.Proofs.MaxFrom
 import GoNeat.Model.Epoch
 import GoNeat.Spec.PopInv
+import GoNeat.Proofs.SortLemmas
 
 set_option linter.unusedSectionVars false
 
@@ -520,21 +521,8 @@ theorem go_mem {α} (less : α → α → Bool) (x : α) (revLeft acc : List α)
       · exact .inl h
       · exact .inr (.inr h)
 
-theorem sort_mem {α} (less : α → α → Bool) (l : List α) : ∀ y ∈ goInsertionSort less l, y ∈ l := by
-  unfold goInsertionSort
-  suffices h : ∀ (init : List α), ∀ y ∈ l.foldl (fun sorted x => goInsertionSort.go less x sorted.reverse []) init, y ∈ init ∨ y ∈ l by
-    intro y hy; rcases h [] y hy with h | h; cases h; exact h
-  induction l with
-  | nil => intro init y hy; exact .inl hy
-  | cons x xs ih =>
-    intro init y hy
-    simp only [List.foldl_cons] at hy
-    rcases ih _ y hy with h | h
-    · rcases go_mem less x _ _ y h with h | h | h
-      · exact .inr (h ▸ List.mem_cons_self)
-      · exact .inl (List.mem_reverse.mp h)
-      · cases h
-    · exact .inr (List.mem_cons_of_mem _ h)
+theorem sort_mem {α : Type} (less : α → α → Bool) (l : List α) : ∀ y ∈ goSort less l, y ∈ l :=
+  fun y hy => (GoNeat.goSort_mem less l y).mp hy
 
 theorem mem_modify {α} (f : α → α) (l : List α) (i : Nat) : ∀ x ∈ l.modify i f, x ∈ l ∨ ∃ y ∈ l, x = f y := by
   induction l generalizing i with
